@@ -148,6 +148,12 @@ class _Common:
     __slots__ = ("_items",)
     _mutable = False
 
+    def __getattr__(self, name):
+        # a bytes/bytearray method this proxy does not model: inconclusive, not a crash that looks like a finding
+        if (hasattr(_rbytes, name) or hasattr(_rbytearray, name)) and not name.startswith("__"):
+            raise Unsupported("%s.%s" % (type(self).__name__, name))
+        raise AttributeError(name)
+
     def _new(self, items):
         if self._mutable:
             return SymByteArray(items)
